@@ -93,6 +93,66 @@ pub fn uref(built: &BuiltScen) -> URef {
     r
 }
 
+/// The unscoped run only as far as position index `upto` (exclusive): for
+/// scenarios whose whole enumeration is far too long to drain.
+pub fn uref_prefix(built: &BuiltScen, upto: usize) -> URef {
+    let mut r = URef { ys: vec![], start: vec![0; NPOS + 2], usable: false, complete: false, known_upto: 0, why: String::new(), zero_positions: 0 };
+    let cap = built.scen.product().max(1).saturating_mul(upto as u64 + 1).saturating_mul(2).saturating_add(64);
+    let mut st = match Stepper::new(&built.scen.flop, &built.ranges, &[]) {
+        Ok(s) => s,
+        Err(m) => {
+            r.why = format!("unscoped construction panicked: {m}");
+            return r;
+        }
+    };
+    let mut calls = 0u64;
+    let mut reached = 0usize; // highest position index seen
+    let mut ended = false;
+    while calls < cap {
+        calls += 1;
+        match st.step() {
+            Out::Yield { t, r: rv, h } => {
+                let p = (t, rv);
+                if !is_board_pos(p) {
+                    r.why = "unscoped run yielded a board off the deck".into();
+                    return r;
+                }
+                let pi = pos_index(p);
+                if pi < reached {
+                    r.why = "unscoped run is not in position order".into();
+                    return r;
+                }
+                reached = pi;
+                if pi >= upto {
+                    break;
+                }
+                r.ys.push((t, rv, h));
+            }
+            Out::End => {
+                ended = true;
+                break;
+            }
+            Out::Panic(m) => {
+                r.why = format!("unscoped run panicked: {m}");
+                break;
+            }
+        }
+    }
+    let mut j = 0usize;
+    for i in 0..=NPOS {
+        while j < r.ys.len() && pos_index((r.ys[j].0, r.ys[j].1)) < i {
+            j += 1;
+        }
+        r.start[i] = j as u32;
+    }
+    r.start[NPOS + 1] = r.ys.len() as u32;
+    r.usable = true;
+    r.complete = ended;
+    // an unscoped run that returned None is known everywhere; otherwise up to where we stopped
+    r.known_upto = if ended { NPOS } else { reached.min(upto) };
+    r
+}
+
 impl URef {
     pub fn comparable(&self, to: Pos) -> bool {
         self.usable && is_valid_pos(to) && pos_index(to) <= self.known_upto
@@ -972,6 +1032,52 @@ pub fn case(batch: &str, tier: &str, i: u64) -> CaseOut {
         }
         return out;
     }
+    if batch == "huge" {
+        // positions x product of range sizes beyond 2^32: only the first positions are
+        // drained, against a lazily computed prefix of the unscoped run
+        let shapes: [(usize, usize); 5] = [(3, 154), (4, 50), (3, 200), (5, 22), (2, 1326)];
+        let (np, k) = shapes[i as usize % shapes.len()];
+        let mut rng = Rng::new(out.seed);
+        let flop = gen_flop(&mut rng);
+        let mut all = all_combos();
+        let players: Vec<RangeRecipe> = (0..np)
+            .map(|_| {
+                rng.shuffle(&mut all);
+                RangeRecipe::simple(all.iter().take(k).map(|c| (c.0, c.1, 1.0f32.to_bits())).collect())
+            })
+            .collect();
+        let scen = Scenario { flop, players };
+        let built = BuiltScen { scen: scen.clone(), ranges: Arc::new(scen.build_ranges()) };
+        let u = uref_prefix(&built, 2);
+        *out.probes.entry("huge_product_scenarios".into()).or_insert(0) += 1;
+        if !u.usable {
+            *out.probes.entry("sweep_cases_skipped_reference_abnormal".into()).or_insert(0) += 1;
+            return out;
+        }
+        let mut lf = Fold::new();
+        for (from, to) in [((0u8, 1u8), (0u8, 2u8)), ((0, 2), (0, 3)), ((0, 1), (0, 3)), ((0, 1), (0, 1))] {
+            if !u.comparable(to) {
+                continue;
+            }
+            let (c, ok) = direct_window(&built, &u, from, to, 1);
+            out.evals += 1;
+            out.steps += c;
+            lf.add(c);
+            lf.add(ok as u64);
+            out.distinct.push(crate::rng::mix(out.seed, (pos_index(from) as u64) << 16 | pos_index(to) as u64));
+            if !ok && out.violation.is_none() {
+                let want = u.window(from, to).len();
+                out.violation = Some((
+                    "window_refinement".into(),
+                    format!("{} ({} odometer states per position) scope {}..{}: differs from the unscoped run restricted to that window ({} showdowns there)", scen.short(), scen.product(), pos_str(from), pos_str(to), want),
+                    json!({"kind":"c04_huge","scenario": scen.to_json(), "from": [from.0, from.1], "to": [to.0, to.1]}),
+                ));
+            }
+        }
+        out.log = lf.get();
+        out.sample = Some(json!({"huge_product": scen.product(), "players": np, "combos_each": k, "windows": "first two positions"}));
+        return out;
+    }
     let (kind, name) = batch.split_once(':').unwrap_or((batch, ""));
     let Some((built, u)) = fixed(tier, name) else {
         eprintln!("unknown sweep scenario {name}");
@@ -1095,12 +1201,24 @@ pub fn eval(v: &Value) -> Option<(String, String)> {
         let u = uref(&built);
         return consumer_window(&built, &u, from, to, &kind).map(|d| (format!("consumer_equivalence:{kind}"), d));
     }
+    if v["kind"].as_str() == Some("c04_huge") {
+        let scen = Scenario::from_json(&v["scenario"]).ok()?;
+        let g = |k: &str| -> Pos { (v[k][0].as_u64().unwrap_or(0) as u8, v[k][1].as_u64().unwrap_or(0) as u8) };
+        let (from, to) = (g("from"), g("to"));
+        let built = BuiltScen { scen: scen.clone(), ranges: Arc::new(scen.build_ranges()) };
+        let u = uref_prefix(&built, pos_index(to).max(1));
+        if !u.comparable(to) {
+            return None;
+        }
+        let (_, ok) = direct_window(&built, &u, from, to, 1);
+        return if ok { None } else { Some(("window_refinement".into(), format!("{} scope {}..{} differs from the unscoped run restricted to that window", scen.short(), pos_str(from), pos_str(to)))) };
+    }
     let run = Run::from_json(v).ok()?;
     check_run(&run, None).key
 }
 
 fn minimise_json(replay: &Value, _okey: &str, pred: &dyn Fn(&Value) -> bool) -> (Value, usize) {
-    if replay["kind"].as_str() == Some("c04_consumer") {
+    if replay["kind"].as_str() == Some("c04_consumer") || replay["kind"].as_str() == Some("c04_huge") {
         return (replay.clone(), 0);
     }
     let Ok(run) = Run::from_json(replay) else { return (replay.clone(), 0) };
@@ -1136,7 +1254,7 @@ fn minimise_json(replay: &Value, _okey: &str, pred: &dyn Fn(&Value) -> bool) -> 
 
 fn key_json(okey: &str, min: &Value) -> String {
     let prefix = if min["profile"].as_str() == Some("dev") { "dev:" } else { "" };
-    if min["kind"].as_str() == Some("c04_consumer") {
+    if min["kind"].as_str() == Some("c04_consumer") || min["kind"].as_str() == Some("c04_huge") {
         let g = |k: &str| -> Pos { (min[k][0].as_u64().unwrap_or(0) as u8, min[k][1].as_u64().unwrap_or(0) as u8) };
         let sk = Scenario::from_json(&min["scenario"]).map(|s| scen_key(&s)).unwrap_or_default();
         return format!("{prefix}{okey}:{}..{}:{sk}", pos_str(g("from")), pos_str(g("to")));
@@ -1201,6 +1319,9 @@ pub fn run(tier: &str) -> i32 {
             if all_pairs {
                 ev.exhaustive = Some(false);
             }
+        }
+        if !dev {
+            batches.push(("huge".into(), if plan.quick { 3 } else { 15 }, 1));
         }
         batches.push(("plain".into(), plan.nruns, if plan.quick { 8 } else { 64 }));
         batches.push(("faults".into(), plan.nruns, if plan.quick { 8 } else { 64 }));
